@@ -66,6 +66,14 @@ def lerr(name):
 # source shapes (ast)
 
 
+def _modfunc(tree, name):
+    """module-level function, or None"""
+    for node in tree.body:
+        if isinstance(node, ast.FunctionDef) and node.name == name:
+            return node
+    return None
+
+
 def _func(tree, cls, name):
     for node in ast.walk(tree):
         if isinstance(node, ast.ClassDef) and node.name == cls:
@@ -147,10 +155,27 @@ def source_rules(repo):
     R["largeStrict"] = R["largeStrictCopy"]
 
     f = _func(tree, "unyt_array", "__array_ufunc__")
-    _n, m = _find(f, r"if out\.dtype\.kind in (\([^)]*\)):", "__array_ufunc__: out integer-kind test")
+    # the out= promotion: in the helper `_float_out_view(out)` that `__array_ufunc__` calls just before
+    # the kernel (unary and binary paths), or — older trees — inline at the top of `__array_ufunc__`
+    g = _modfunc(tree, "_float_out_view")
+    if g is not None:
+        if [a.arg for a in g.args.args] != ["out"]:
+            raise LookupError("_float_out_view: unexpected signature")
+        calls = _find(f, r"out_func = _float_out_view\(out\)", "__array_ufunc__: out_func = _float_out_view(out)", all_=True)
+        if len(calls) < 2:
+            raise LookupError("__array_ufunc__: _float_out_view(out) is not called on both the unary and the binary path")
+        _find(g, r"return out\.view\(np\.ndarray\)", "_float_out_view: returns the ndarray view of out")
+        R["outWhere"] = "_float_out_view"
+    else:
+        g = f
+        R["outWhere"] = "__array_ufunc__"
+    _n, m = _find(g, r"if out\.dtype\.kind in (\([^)]*\)):", "out= promotion: integer-kind test")
     R["outIntKinds"] = _kinds(m.group(1))
-    _n, m = _find(f, r"new_dtype = '(\w)' \+ str\(out\.dtype\.itemsize\)", "__array_ufunc__: out 'f' + itemsize")
+    _n, m = _find(g, r"new_dtype = '(\w)' \+ str\(out\.dtype\.itemsize\)", "out= promotion: 'f' + itemsize")
     R["outKind"] = m.group(1)
+    _find(g, r"float_values = out\.astype\(new_dtype\)", "out= promotion: astype(new_dtype)")
+    _find(g, r"out\.dtype = new_dtype", "out= promotion: relabel")
+    _find(g, r"np\.copyto\(out, float_values\)", "out= promotion: copyto")
     hit = _find_opt(f, r"new_dtype = np\.dtype\('(\w)' \+ str\(inp1\.dtype\.itemsize\)\)")
     if hit is not None:
         # the kind character is a constant: (then, test, else) with then = else
